@@ -154,7 +154,8 @@ PlcCarsT == [XFG |-> B1(0), XRG |-> B1(1), XRT |-> B1(2), RB4 |-> B1(3), FXO |->
              MRT |-> B1(7), UF1 |-> B1(8), RAC |-> B1(9), FZ5 |-> B1(10), FOX |-> B1(11), XFR |-> B1(12), UFR |-> B1(13),
              FO8 |-> B1(14), FXR |-> B1(15), XRR |-> B1(16), FZR |-> B1(17), BF1 |-> B1(18), FBM |-> B1(19)]
 
-FlagBits(names, table) == UNION {table[n] : n \in names}
+\* flag values are sequences of constant names (JSON arrays); order and repetition are irrelevant
+FlagBits(names, table) == UNION {table[names[i]] : i \in DOMAIN names}
 
 ----------------------------------------------------------------------------
 (* field descriptors *)
